@@ -599,8 +599,9 @@ class Scheduler:
         if job.donepath.exists():
             job.state = JobState.DONE
 
-        # Check if we have a running process
-        process = await job.aio_process()
+        # Check if we have a running process (unless the job is already
+        # finished: its state must not go back to RUNNING)
+        process = None if job.state.finished() else await job.aio_process()
         if process is not None:
             # Yep! First we notify the listeners
             job.state = JobState.RUNNING
